@@ -24,7 +24,7 @@ func init() {
 			{"C05/integer-keywords", ruleC05Integers},
 		},
 		Explanation: "Marshal and unmarshal are two hand-written tables over the same fields; the checker recomputes both tables from the types (encoding/json's field resolution re-implemented) on every run and decides their agreement: equal JSON-name sets for the marshal wrapper, the unmarshal wrapper and every named Schema field; every field tagged `-` is read by MarshalJSON and written by UnmarshalJSON and its keyword is a wrapper field; no keyword whose empty-but-present value changes validation (enum, anyOf, oneOf; frozen table with reasons, unclassified for new slice/map fields) is marshaled through an omitempty slice/map; boolean folding compares the whole output with the two exact constants; the known names are purged from the Extra map unconditionally and duplicates between Extra and fields are rejected; all integer-valued keywords are shadowed by the range-checked integer type and copied back. It does NOT decide byte identity of a second marshal, nor value fidelity of const/enum/default contents.",
-		NotDecided: []string{"byte-identity of Marshal(Unmarshal(Marshal(s)))", "value-level fidelity of const, enum, default, examples contents (delegated to encoding/json)", "equivalence of validation behaviour after a round trip as an observed fact"},
+		NotDecided:  []string{"byte-identity of Marshal(Unmarshal(Marshal(s)))", "value-level fidelity of const, enum, default, examples contents (delegated to encoding/json)", "equivalence of validation behaviour after a round trip as an observed fact"},
 	})
 }
 
@@ -172,11 +172,11 @@ var emptyInsignificant = map[string]string{
 	"default":           "an empty RawMessage is not a JSON value; absent and empty are both 'no default'",
 }
 var emptySignificant = map[string]string{
-	"enum":  "an empty enum rejects every instance",
-	"anyOf": "an empty disjunction rejects every instance",
-	"oneOf": "exactly-one of nothing rejects every instance",
-	"type":  "an empty type list rejects every instance",
-	"items": "an empty draft-07 items array hands every item to additionalItems",
+	"enum":       "an empty enum rejects every instance",
+	"anyOf":      "an empty disjunction rejects every instance",
+	"oneOf":      "exactly-one of nothing rejects every instance",
+	"type":       "an empty type list rejects every instance",
+	"items":      "an empty draft-07 items array hands every item to additionalItems",
 	"properties": "documented: marshaled even when empty",
 }
 
